@@ -34,7 +34,7 @@
 (*                   magic number, within Timeout: the failure count is 0    *)
 (*                   ("Reset failure counter"), nothing is outstanding any   *)
 (*                   more, the latency is the age of the request ("Last      *)
-(*                   measured round-trip latency")                           *)
+(*                   measured round-trip latency"; a check never changes it) *)
 (* StaleIgnored      a reply with another identifier, or while nothing is    *)
 (*                   outstanding ("Unexpected echo reply"), changes nothing  *)
 (* EchoCadence       Interval = "Echo interval": at a check a monitored,     *)
@@ -207,6 +207,7 @@ SessClauses(cfg, g, e, s) ==
          \cup (IF o.mon /\ (\/ o.pend # pend2
                             \/ (o.iss = 0 /\ ex.waiting /\ o.pid # x.oid)
                             \/ (~IsMgr(cfg) /\ o.iss >= 1 /\ o.pid # o.cbid)) THEN {"Outstanding"} ELSE {})
+         \cup (IF o.mon /\ o.lat # x.lat THEN {"ReplyResets"} ELSE {})      \* the latency is the last MEASURED round trip
          \cup (IF ~IsMgr(cfg) /\ o.cb >= 1 /\ (~o.wok \/ (x.last # -1 /\ o.cbid = x.last)) THEN {"FreshId"} ELSE {})
   ELSE \* no check, not this session's own reply / registration: nothing may change
        IF same THEN {}
